@@ -267,6 +267,8 @@ func cmdRun(args []string) {
 	fs.BoolVar(&cfg.Race, "race", false, "happens-before race monitor")
 	fs.IntVar(&cfg.NPBound, "npbound", 0, "bound on free scheduling choices at blocking points")
 	fs.BoolVar(&cfg.EnvBoundOK, "envboundok", false, "timer budget exhaustion truncates the path instead of reporting a deadlock")
+	fs.BoolVar(&cfg.SelectLast, "selectlast", false, "select takes the last ready case")
+	fs.IntVar(&cfg.LazyFires, "lazyfires", 0, "separate budget for timer firings at quiescence")
 	fs.BoolVar(&cfg.EnvLazy, "envlazy", false, "tickers fire only when all goroutines are blocked")
 	models := fs.Bool("models", false, "collect a model per completed path")
 	pstr := fs.String("params", "", "harness parameters k=v,k=v")
@@ -338,4 +340,3 @@ func printResult(res *ExploreResult) {
 	fmt.Println(string(b))
 	fmt.Fprintf(os.Stderr, "violations: %d\n", len(res.Violations))
 }
-
